@@ -430,6 +430,11 @@ impl PdfString {
             for &b in self.data.as_slice() {
                 match b {
                     b'\\' | b'(' | b')' => write!(out, r"\")?,
+                    // an unescaped CR would be read back as LF
+                    b'\r' => {
+                        write!(out, r"\r")?;
+                        continue;
+                    }
                     _ => ()
                 }
                 out.write_all(&[b])?;
